@@ -88,12 +88,30 @@ Definition reindex (newk oldk ix : list key) : list key :=
   fold_left (fun ix k => idx_del k ix) (missing oldk newk)
     (fold_left (fun ix k => idx_add k ix) (missing newk oldk) ix).
 
+(** index{Scope,Contract}Specification BEFORE fix 722f4df35 diffed the owner-address STRINGS
+    (provutils.FindMissing on []string) and only afterwards decoded each string into an index key:
+    Set the keys of the strings new has and old lacks, then Delete the keys of the strings old has
+    and new lacks.  When an owner merely changed spelling the key was written and then deleted
+    (finding C14-spec-owner-respelling, fixed).  Kept only for the refutation witness
+    [set_sspec_strdiff] / [set_cspec_strdiff] below; the current code compares decoded addresses
+    (FindMissingFunc with sameBech32Addr), i.e. [reindex] on the decoded keys, as indexScope does. *)
+Definition missing_z (req found : list Z) : list Z := filter (fun e => negb (existsb (Z.eqb e) found)) req.
+Definition reindex_str (key_of : Z -> key) (newe olde : list Z) (ix : list key) : list key :=
+  fold_left (fun ix k => idx_del k ix) (map key_of (missing_z olde newe))
+    (fold_left (fun ix k => idx_add k ix) (map key_of (missing_z newe olde)) ix).
+
 (** *** Index values (getScopeIndexValues etc.) *)
-Definition scope_keys_as (s : scope) : list key := map (fun a => (a, sc_id s)) (sc_da s ++ sc_owners s).
+(** An owner / data-access / spec-owner entry is a bech32 STRING; the same account has two legal
+    spellings (lower and upper case, both accepted by sdk.AccAddressFromBech32 and ValidateBasic).
+    Entry [a] (1 <= a < 100) is the lower-case spelling of account [a], entry [100 + a] its
+    upper-case spelling; [acct] is the decoded address (the bytes that go into index keys). *)
+Definition acct (e : Z) : Z := e mod 100.
+
+Definition scope_keys_as (s : scope) : list key := map (fun a => (acct a, sc_id s)) (sc_da s ++ sc_owners s).
 Definition scope_keys_ss (s : scope) : list key := [(sc_spec s, sc_id s)].
-Definition sspec_keys_asp (s : sspec) : list key := map (fun a => (a, ss_id s)) (ss_owners s).
+Definition sspec_keys_asp (s : sspec) : list key := map (fun a => (acct a, ss_id s)) (ss_owners s).
 Definition sspec_keys_cs (s : sspec) : list key := map (fun c => (c, ss_id s)) (ss_cspecs s).
-Definition cspec_keys_ac (s : cspec) : list key := map (fun a => (a, cs_id s)) (cs_owners s).
+Definition cspec_keys_ac (s : cspec) : list key := map (fun a => (acct a, cs_id s)) (cs_owners s).
 
 Definition okeys {A} (f : A -> list key) (o : option A) : list key :=
   match o with Some a => f a | None => [] end.
@@ -194,6 +212,20 @@ Definition remove_cspec (st : state) (id : Z) : option state :=
       let st := with_ix_cspec st (reindex [] (cspec_keys_ac s) (ix_ac st)) in
       Some (with_cspecs st (filter (fun x => negb (cs_id x =? id)) (cspecs st)))
   end.
+
+(** The pre-fix (722f4df35) writers of the two specification kinds: owner strings diffed as
+    strings.  Not used by [step]; only for the witness that this variant loses a re-spelled owner. *)
+Definition set_sspec_strdiff (st : state) (s : sspec) : state :=
+  let old := find_sspec st (ss_id s) in
+  let st := with_sspecs st (s :: filter (fun x => negb (ss_id x =? ss_id s)) (sspecs st)) in
+  with_ix_sspec st
+    (reindex_str (fun a => (acct a, ss_id s)) (ss_owners s) (match old with Some o => ss_owners o | None => [] end) (ix_asp st))
+    (reindex (sspec_keys_cs s) (okeys sspec_keys_cs old) (ix_cs st)).
+
+Definition set_cspec_strdiff (st : state) (s : cspec) : state :=
+  let old := find_cspec st (cs_id s) in
+  let st := with_cspecs st (s :: filter (fun x => negb (cs_id x =? cs_id s)) (cspecs st)) in
+  with_ix_cspec st (reindex_str (fun a => (acct a, cs_id s)) (cs_owners s) (match old with Some o => cs_owners o | None => [] end) (ix_ac st)).
 
 Definition set_rspec (st : state) (r : rspec) : state :=
   with_rspecs st
